@@ -161,8 +161,8 @@ func cqB(x *big.Int) string {
 	internDefs = append(internDefs, fmt.Sprintf("Definition %s : N := 0x%s.", n, k))
 	return n
 }
-func cq(dec string) string       { return cqB(num(dec)) }
-func cqU(x uint64) string        { return cqB(new(big.Int).SetUint64(x)) }
+func cq(dec string) string        { return cqB(num(dec)) }
+func cqU(x uint64) string         { return cqB(new(big.Int).SetUint64(x)) }
 func cqA(a common.Address) string { return cqB(new(big.Int).SetBytes(a[:])) }
 
 func (t TxSpec) coq() string {
@@ -177,12 +177,12 @@ func (t TxSpec) coq() string {
 // sender cases
 
 type SenderCase struct {
-	Kind    string `json:"kind"` // "sender"
-	Class   string `json:"class"`
-	Net     uint64 `json:"net"`      // signer network id
-	Tx      TxSpec `json:"tx"`
-	Key     int    `json:"key"`      // key that produced the original signature
-	SameAs  bool   `json:"same_as"`  // the property expects exactly the key holder
+	Kind   string `json:"kind"` // "sender"
+	Class  string `json:"class"`
+	Net    uint64 `json:"net"` // signer network id
+	Tx     TxSpec `json:"tx"`
+	Key    int    `json:"key"`     // key that produced the original signature
+	SameAs bool   `json:"same_as"` // the property expects exactly the key holder
 	// observations
 	Hash string `json:"hash,omitempty"`
 	Code int    `json:"code"`
@@ -285,11 +285,11 @@ func (c SenderCase) coq() string {
 }
 
 type SignCase struct {
-	Kind string `json:"kind"` // "sign"
-	Net  uint64 `json:"net"`
-	Tx   TxSpec `json:"tx"`
-	Key  int    `json:"key"`
-	Hash string `json:"hash"`
+	Kind string    `json:"kind"` // "sign"
+	Net  uint64    `json:"net"`
+	Tx   TxSpec    `json:"tx"`
+	Key  int       `json:"key"`
+	Hash string    `json:"hash"`
 	Sig  [3]string `json:"sig"`
 	Ok   bool      `json:"ok"`
 	VRS  [3]string `json:"vrs"`
@@ -717,7 +717,7 @@ type ApplyCase struct {
 type chainStub struct{ yp *params.YouParams }
 
 func (c chainStub) VersionForRound(uint64) (*params.YouParams, error) { return c.yp, nil }
-func (c chainStub) GetHeader(common.Hash, uint64) *types.Header      { return nil }
+func (c chainStub) GetHeader(common.Hash, uint64) *types.Header       { return nil }
 
 func applyCode(err error) int {
 	if err == nil {
@@ -1237,7 +1237,14 @@ func genApply(r *vf.Rng) ApplyCase {
 	if r.Chance(10) {
 		// pre-funded (but otherwise empty) future creation address
 		k := r.Intn(nKeys)
-		c.Accts = append(c.Accts, Acct{Addr: crypto.CreateAddress(keyAddr[k], nonce[k]).Hex(), Bal: "9"})
+		a := crypto.CreateAddress(keyAddr[k], nonce[k]).Hex()
+		dup := false
+		for _, x := range c.Accts {
+			dup = dup || x.Addr == a
+		}
+		if !dup { // an address may be listed once only
+			c.Accts = append(c.Accts, Acct{Addr: a, Bal: "9"})
+		}
 	}
 	steps := 1 + r.Heavy(40)
 	usedMain := 0
